@@ -819,6 +819,15 @@ impl Element {
                 let model = self.model()?;
                 let version = self.min_version()?;
                 let mut element = self.0.write();
+                // the path of the target must be a valid value for the reference; check this before anything is modified
+                let new_ref_cdata = CharacterData::String(new_ref.clone());
+                if !element
+                    .elemtype
+                    .chardata_spec()
+                    .is_some_and(|spec| CharacterData::check_value(&new_ref_cdata, spec, version))
+                {
+                    return Err(AutosarDataError::InvalidReference);
+                }
                 // set the DEST attribute first - this could fail if the target element has the wrong type
                 if element
                     .set_attribute_internal(AttributeName::Dest, CharacterData::Enum(enum_item), version)
@@ -831,7 +840,7 @@ impl Element {
                         // else initialise the new reference
                         model.add_reference_origin(&new_ref, self.downgrade());
                     }
-                    element.set_character_data(CharacterData::String(new_ref), version)?;
+                    element.set_character_data(new_ref_cdata, version)?;
                     Ok(())
                 } else {
                     Err(AutosarDataError::InvalidReference)
